@@ -767,6 +767,11 @@ impl Prop for C05 {
             self.check_line(&format!("10 ?{}", body), false, ctx);
             return;
         }
+        if idx == 0 {
+            // fixed corpus, run in every tier: the witness of the recorded finding KF-C05-adjacent-...
+            // (kept in the workload so that the KNOWN-FINDING line appears in every run and disappears when repaired)
+            self.check_line("PRINT ELSESUB+==>-e", false, ctx);
+        }
         if idx % 40 == 39 {
             return self.long_line_case(rng, ctx);
         }
